@@ -10,6 +10,7 @@ for n in $names; do
   v=$(echo "$out" | grep -c '^VIOLATION')
   ex=$(echo "$out" | grep -oE "exit=[0-9]+" | tail -1)
   subs=$(echo "$out" | grep -oE "failing sub-check [a-zA-Z0-9_-]+" | sed 's/failing sub-check //' | sort -u | tr '\n' ',' )
-  echo "SEED $n violations=$v $ex subs=$subs"
+  note=""; grep -q '"detected": false' seeded/$n/meta.json 2>/dev/null && note=" (stored as not-a-violation of the property as stated: expected silent, see meta.json)"
+  echo "SEED $n violations=$v $ex subs=$subs$note"
 done
 git -C /repo status --short | head -3
